@@ -146,8 +146,7 @@ func (g *c05Graph) decl(name string) *world.Decl {
 var c05ChainCache = map[string]*simeth.Chain{}
 
 // c05BuildChain: blocks 1..3. Block m, tx0 (registry): RegOne(v_m), RegOne(w_m), RegTwo(u_m), Other;
-// tx1 (to = w_m): Transfer logs {u_m,v_m} {u_m,X} {Y,v_m} {u_(m-1),v_(m-1)}, Act(v_m), Act(X), Act(v_(m-1));
-// tx2 (to = an unregistered address): Transfer {u_m, v_m}.
+// tx1 (to = w_m): Transfer logs {u_m,v_m} {u_m,X} {Y,v_m} {u_(m-1),v_(m-1)}, Act(v_m), Act(X), Act(v_(m-1)).
 func c05BuildChain(g *c05Graph) *simeth.Chain {
 	if c, ok := c05ChainCache["c"]; ok {
 		return c
@@ -174,8 +173,7 @@ func c05BuildChain(g *c05Graph) *simeth.Chain {
 		if m > 1 {
 			t1.Logs = append(t1.Logs, tr.MkLog(c05U[m-1], aw(c05V[m-1]), aw(to), world.U(uint64(600+m))), act.MkLog(c05Registry, aw(c05V[m-1]), world.U(uint64(700+m))))
 		}
-		t2 := simeth.TxSpec{Logs: []*simeth.Log{tr.MkLog(c05U[m], aw(c05V[m]), aw(to), world.U(uint64(800+m)))}}
-		specs = append(specs, simeth.BlockSpec{Txs: []simeth.TxSpec{t0, t1, t2}})
+		specs = append(specs, simeth.BlockSpec{Txs: []simeth.TxSpec{t0, t1}})
 	}
 	c := simeth.Build(specs, 5)
 	for m := 1; m <= 3; m++ {
@@ -205,11 +203,11 @@ func c05Jobs(thorough bool) []c05Job {
 		add(graph, st(r, 2, "d", 2), 2, false, 1)
 		add(graph, st(r, 3, "d", 2), 1, false, 2)
 		add(graph, st(r, 2, "d", 2), 1, true, 1)
+		add(graph, st(r, 3, "d", 3), 1, false, 1)
 		add(graph, st(r, 0, "d", 2), 1, false, 1) // referenced integration never starts
 		add(graph, st(r, 0, "d", 2), 2, false, 2)
 		add(graph, st(r, 0, "d", 2), 1, true, 1)
 		if thorough {
-			add(graph, st(r, 3, "d", 3), 1, false, 1)
 			add(graph, st(r, 3, "d", 3), 1, true, 1)
 			add(graph, st(r, 2, "d", 3), 2, true, 2)
 		}
@@ -218,34 +216,59 @@ func c05Jobs(thorough bool) []c05Job {
 	one("field", "r2")
 	one("txfield", "r1")
 	for _, g := range []string{"two", "two-or"} {
-		add(g, st("r1", 2, "r2", 2, "d", 2), 1, false, 1)
 		add(g, st("r1", 2, "r2", 1, "d", 2), 2, false, 1)
-		add(g, st("r1", 1, "r2", 2, "d", 2), 1, true, 1)
 		add(g, st("r1", 2, "r2", 0, "d", 2), 1, false, 1) // R2 never starts
 		add(g, st("r1", 0, "r2", 2, "d", 2), 1, false, 1) // R1 never starts
 		add(g, st("r1", 0, "r2", 0, "d", 2), 1, false, 1) // neither starts
 		add(g, st("r1", 2, "r2", 0, "d", 2), 2, false, 2)
 		add(g, st("r1", 1, "r2", 0, "d", 1), 1, true, 1)
+		if g == "two" || thorough {
+			add(g, st("r1", 1, "r2", 2, "d", 2), 1, false, 1)
+			add(g, st("r1", 1, "r2", 1, "d", 1), 1, true, 1)
+		}
 		if thorough {
-			add(g, st("r1", 3, "r2", 2, "d", 3), 1, false, 1)
-			add(g, st("r1", 2, "r2", 3, "d", 2), 1, true, 1)
+			add(g, st("r1", 2, "r2", 2, "d", 2), 1, false, 1)
+			add(g, st("r1", 1, "r2", 2, "d", 1), 1, true, 1)
 		}
 	}
-	add("chain", st("r1", 2, "d", 2, "d2", 2), 1, false, 1)
+	add("chain", st("r1", 2, "d", 2, "d2", 1), 1, false, 1)
+	add("chain", st("r1", 1, "d", 1, "d2", 2), 1, false, 1)
 	add("chain", st("r1", 1, "d", 2, "d2", 2), 2, false, 1)
-	add("chain", st("r1", 2, "d", 1, "d2", 2), 1, true, 1)
+	add("chain", st("r1", 1, "d", 1, "d2", 1), 1, true, 1)
 	add("chain", st("r1", 0, "d", 2, "d2", 2), 1, false, 1) // R1 never starts: neither D nor D2 may move
 	add("chain", st("r1", 2, "d", 0, "d2", 2), 1, false, 1) // D never starts: D2 may not move
 	add("chain", st("r1", 2, "d", 0, "d2", 2), 2, true, 1)
-	add("unrelated", st("r1", 2, "u", 2, "d", 2), 1, false, 1)
+	add("unrelated", st("r1", 2, "u", 1, "d", 2), 1, false, 1)
 	add("unrelated", st("r1", 0, "u", 2, "d", 2), 1, false, 1) // R1 never starts, the unrelated integration runs
 	add("unrelated", st("r1", 0, "u", 2, "d", 2), 2, false, 2)
-	add("unrelated", st("r1", 1, "u", 2, "d", 2), 1, true, 1)
+	add("unrelated", st("r1", 1, "u", 1, "d", 1), 1, true, 1)
 	if thorough {
-		add("chain", st("r1", 3, "d", 2, "d2", 2), 1, false, 1)
-		add("unrelated", st("r1", 2, "u", 3, "d", 3), 1, false, 1)
+		add("chain", st("r1", 2, "d", 2, "d2", 2), 1, false, 1)
+		add("chain", st("r1", 2, "d", 1, "d2", 2), 1, true, 1)
+		add("unrelated", st("r1", 2, "u", 2, "d", 2), 1, false, 1)
+		add("unrelated", st("r1", 1, "u", 2, "d", 1), 1, true, 1)
 	}
+	// largest jobs first: round-robin sharding then spreads them over the workers
+	sort.SliceStable(jobs, func(a, b int) bool { return c05Weight(jobs[a]) > c05Weight(jobs[b]) })
 	return jobs
+}
+
+// c05Weight is a rough size estimate of a job's schedule space (ordering heuristic only).
+func c05Weight(j c05Job) int {
+	w, n := 1, 0
+	for _, s := range j.Steps {
+		if s > 0 {
+			w *= s + 1
+			n++
+		}
+	}
+	if j.Grow {
+		w *= 3
+	}
+	for i := 1; i < n; i++ {
+		w *= 3
+	}
+	return w
 }
 
 // ---- preparation -------------------------------------------------------------------------------------
@@ -349,6 +372,7 @@ func c05Exec(j c05Job, p *c05Prep, ch vrt.Chooser, states *vrt.StateSet, trace, 
 	ioOnly := func(l string) bool {
 		return strings.HasPrefix(l, "sql:") || strings.HasPrefix(l, "rpc:") || strings.HasPrefix(l, "env:")
 	}
+	lookupNo := map[string]int{} // integration -> look-ups issued since its last dependency query
 	away := func(l string) bool {
 		if strings.HasPrefix(l, "boundary:") {
 			return true
@@ -370,7 +394,10 @@ func c05Exec(j c05Job, p *c05Prep, ch vrt.Chooser, states *vrt.StateSet, trace, 
 		if fullIO {
 			return ioOnly(l)
 		}
-		return strings.HasPrefix(l, "sql:extended:with latest") || strings.HasPrefix(l, "sql:extended:select true") || strings.HasPrefix(l, "sql:query:copy")
+		if strings.HasPrefix(l, "sql:extended:select true") {
+			return lookupNo[base] == 1 // quick tier: only before the FIRST look-up of a step
+		}
+		return strings.HasPrefix(l, "sql:extended:with latest") || strings.HasPrefix(l, "sql:query:copy")
 	}
 	restrict := func() {
 		for _, t := range w.V.Threads() {
@@ -385,6 +412,18 @@ func c05Exec(j c05Job, p *c05Prep, ch vrt.Chooser, states *vrt.StateSet, trace, 
 	pgGate, netGate := w.PG.Gate, w.Net.Gate
 	w.PG.Gate = func(b simpg.Batch) simpg.Fault {
 		restrict()
+		if cur := w.V.Cur(); cur != nil && len(b.SQL) > 0 && !b.PrepareOnly {
+			base := cur.Name
+			if i := strings.IndexByte(base, '.'); i >= 0 {
+				base = base[:i]
+			}
+			switch {
+			case strings.Contains(b.SQL[0], "with latest as"):
+				lookupNo[base] = 0
+			case strings.HasPrefix(strings.TrimSpace(b.SQL[0]), "select true from"):
+				lookupNo[base]++
+			}
+		}
 		f := pgGate(b)
 		if f == simpg.FaultNone && len(b.SQL) > 0 && strings.Contains(b.SQL[0], "with latest as") {
 			if cur := w.V.Cur(); cur != nil {
@@ -501,7 +540,9 @@ func c05Exec(j c05Job, p *c05Prep, ch vrt.Chooser, states *vrt.StateSet, trace, 
 			d := p.g.decl(name)
 			ths = append(ths, w.V.GoNamed(name, func() {
 				for s := 0; s < n; s++ {
-					vrt.Boundary("step")
+					if s > 0 { // who runs first is already a free choice (join / exit / another thread's boundary)
+						vrt.Boundary("step")
+					}
 					if w.V.Closing() || res.vio != nil {
 						return
 					}
